@@ -738,3 +738,59 @@ def retention_not_ended_by_failure(chk, P, key):
             raise mir.AnchorMissing("an exit of the retention loop")
         return True, "", ev
     chk.ob(key, "the retention loop is left only when the listing is short enough or empty, never because a delete failed", f)
+
+
+# ---- C12: compression consumes the whole payload ------------------------------------------------------------------------------------------------
+
+def gzip_consumes_payload(chk, P, key):
+    """HttpContent::gzip feeds the encoded payload to the compressor chunk by chunk: its loop is left only on the *empty* chunk (the cursor is
+    exhausted), and on the other edge the chunk is written in full (`write_all`) and the cursor advanced by its length.  With the test inverted the
+    loop ends at the first chunk and an empty body is sent - which the collector acknowledges."""
+    def f():
+        bs = [b for k, b in P.bodies.items() if b.crate == "emit_otlp" and k.endswith("HttpContent::gzip") and not b.is_closure]
+        if not bs:
+            if P.config != "K1" or getattr(chk, "_overlay", None):
+                return True, "", ["no gzip in this build"]
+            raise mir.AnchorMissing("HttpContent::gzip")
+        b = bs[0]
+        heads = sorted({h for s_, h in b.back_edges()})
+        if not heads:
+            raise mir.AnchorMissing("the chunk loop of HttpContent::gzip")
+        body = b.loop_body(heads[0])
+        wa = [c for c in b.calls(normal_only=True) if c.callee.get("name") == "write_all" and c.bb in body]
+        adv = [c for c in b.calls(normal_only=True) if c.callee.get("name") == "advance" and c.bb in body]
+        if not wa or not adv:
+            return False, "the chunk loop of HttpContent::gzip does not write_all and advance", [], b.span
+        ok = False
+        for bb, t in b.switches():
+            if bb not in body:
+                continue
+            so, pos = mir.norm_bool(b.switch_origin(bb))
+            c = mir.norm_cmp(so, lambda o: "len" in o_str(o) or "PtrMetadata" in o_str(o))
+            empty_edge = None
+            if c and mir.o_const_value(c[2]) == 0 and c[0] in ("Eq", "Ne"):
+                for v, n in _edges(t):
+                    holds = ((v != "0") == pos)
+                    is_empty = holds if c[0] == "Eq" else not holds
+                    if is_empty:
+                        empty_edge = n
+                    else:
+                        nonempty_edge = n
+            elif so[0] == "call" and so[1].callee.get("name") == "is_empty":
+                for v, n in _edges(t):
+                    if ((v != "0") == pos):
+                        empty_edge = n
+                    else:
+                        nonempty_edge = n
+            if empty_edge is None:
+                continue
+            ok = True
+            if empty_edge in body and wa[0].bb in b.reachable_from(empty_edge, removed_blocks=tuple(heads)):
+                return False, ("HttpContent::gzip writes on the *empty* chunk and leaves its loop on the first non-empty one: nothing of the payload is compressed and "
+                               "an empty body is sent, which the collector acknowledges"), [], wa[0].loc
+            if wa[0].bb not in b.reachable_from(nonempty_edge, removed_blocks=tuple(heads)):
+                return False, "HttpContent::gzip does not write a non-empty chunk", [], wa[0].loc
+        if not ok:
+            raise mir.AnchorMissing("the emptiness test of the chunk loop in HttpContent::gzip")
+        return True, "", [wa[0].loc, adv[0].loc]
+    chk.ob(key, "compression feeds every chunk of the payload to the encoder and stops only at the empty chunk", f)
